@@ -293,6 +293,19 @@ def generate (dim : Dim) (ccs : List CC) (vars0 : Array Var) (prev : List Aux) :
   let (seps, err) := genSepsFrom dim vars.size aux 0 ccs []
   { vars := vars, aux := aux, seps := seps, err := err }
 
+/-- `getCurrSubConstraintAlternatives` iterated over all sub-constraints of compound constraint
+    `idx` (the encoding `makeFeasible` uses): after generateVariables for x (state `gx`) and then y
+    (state `gy`), every type yields one alternative per sub-constraint — the same constraint that
+    generateSeparationConstraints produces, in the constraint's own dimension; fixed-relative
+    offsets alternate x, y; page boundaries yield nothing. -/
+def alternativesOf (gx gy : GenResult) (idx : Nat) (cc : CC) : List (Dim × Sep) :=
+  match cc with
+  | .pageBounds .. => []
+  | .fixedRel _ _ rel => rel.map fun o => (o.dim, { left := o.first, right := o.second, gap := o.off, eq := true })
+  | .boundary d .. | .alignment d .. | .separation d .. | .sepAlign d .. | .multiSep d .. | .distribution d .. =>
+    let g := match d with | .x => gx | .y => gy
+    (genSepsOne d g.vars.size g.aux idx cc).1.map fun s => (d, s)
+
 /-- node variables as `setupVarsAndConstraints` creates them: desired = centre, weight 1 -/
 def nodeVars (dim : Dim) (rs : Array Rect) : Array Var :=
   rs.map fun r => { desired := r.centre dim, weight := 1, fixed := false }
@@ -392,6 +405,18 @@ def NocState.addCluster (st : NocState) (c : NoShape) (childNodes : List Nat) (g
 
 def NocState.seps (st : NocState) (bbs : Array Rect) (dim : Dim) : List Sep :=
   nonOverlapSeps bbs dim (st.entries.map (·.1)) st.pairs
+
+/-- `xSepL += 10e-10`: the tiny extra separation makeFeasible asks for -/
+def feasibleEps : Rat := 1 / 1000000000
+
+/-- the four alternatives `NonOverlapConstraints::getCurrSubConstraintAlternatives` offers for an
+    overlapping pair of plain shapes `id1 < id2` (left, right, below, above — before cost sorting);
+    gaps are exact sums here, the code rounds `h1 + h2 + 10e-10` in double -/
+def shapeAlternatives (id1 id2 : Nat) (w1 h1 w2 h2 : Rat) : List (Dim × Sep) :=
+  [ (.x, { left := id2, right := id1, gap := w1 + w2 + feasibleEps, eq := false }),
+    (.x, { left := id1, right := id2, gap := w1 + w2 + feasibleEps, eq := false }),
+    (.y, { left := id2, right := id1, gap := h1 + h2 + feasibleEps, eq := false }),
+    (.y, { left := id1, right := id2, gap := h1 + h2 + feasibleEps, eq := false }) ]
 
 /-- `ClusterContainmentConstraints` for one cluster with boundary variables `v`, `v+1` in one
     dimension: child node `(id, half size)`; child cluster `(varId, margin.min, margin.max)`;
